@@ -245,6 +245,15 @@ func c10GenOp(h *c08hist) (ref.Instr, bool) {
 			return ref.Instr{Op: "full", Shape: shape, F: 0.5 + r.Float64(), Tracked: r.Intn(3) > 0}, true
 		}
 		t := Shuffled(r, Unique(r, shape, 0.2, 1.5))
+		if r.Intn(10) == 0 { // an untracked constant holding +Inf, -Inf or NaN: products with it give later back-propagations and optimizer steps non-finite gradients
+			for i := range t.Data {
+				if i == 0 || r.Intn(3) == 0 {
+					t.Data[i] = []float64{math.Inf(1), math.Inf(-1), math.NaN()}[r.Intn(3)]
+				}
+			}
+			h.k.Count("non_finite_constants_in_histories", 1)
+			return ref.Instr{Op: "leaf", Shape: shape, Data: t.Data, Tracked: false}, true
+		}
 		return ref.Instr{Op: "leaf", Shape: shape, Data: t.Data, Tracked: r.Intn(3) > 0}, true
 	}
 	x := us[r.Intn(len(us))]
@@ -375,7 +384,7 @@ func c10GenOp(h *c08hist) (ref.Instr, bool) {
 		}
 	case 10:
 		if y, ok := compat(func(s []int) bool { return ref.SameShape(s, v.Shape) }); ok {
-			return ref.Instr{Op: []string{"gt", "eq"}[r.Intn(2)], In: []int{x, y}}, true
+			return ref.Instr{Op: []string{"gt", "eq", "ge", "lt", "le", "ne"}[r.Intn(6)], In: []int{x, y}}, true
 		}
 	case 11: // component calls over existing tensors: a loss (rank 1), an activation object
 		if y, ok := compat(func(s []int) bool { return ref.SameShape(s, v.Shape) }); ok && rank == 1 {
@@ -565,6 +574,9 @@ func runC10(c *fw.Ctx) {
 	for i := 0; i < c.Pick(1000, 20000); i++ {
 		c.Case(func(k *fw.K) { c10Components(k) })
 	}
+	for i := 0; i < c.Pick(600, 12000); i++ {
+		c.Case(func(k *fw.K) { c10HeldParameters(k) })
+	}
 }
 
 // scribbleInit is an initializer that overwrites the shape slice the library handed to it.
@@ -581,6 +593,99 @@ func (s scribbleInit) Init(shape []int) (tensor.Tensor, error) {
 		}
 	}
 	return t, err
+}
+
+// heldInit hands the layer a tensor that already exists and that the caller keeps using (pretrained, frozen or shared parameters).
+type heldInit struct{ t tensor.Tensor }
+
+func (h heldInit) Init([]int) (tensor.Tensor, error) { return h.t, nil }
+
+// c10HeldParameters: a layer built over EXISTING tensors (custom initializers returning tensors the caller holds: frozen = untracked,
+// or tracked ones that already hold a gradient from an earlier pass) leaves those tensors as they are - values, gradient object,
+// tracked and spent flags; constructing the layer and running it forward assigns no gradient and changes no tracking.
+func c10HeldParameters(k *fw.K) {
+	r := k.Rng
+	B, D, O := 1+r.Intn(3), 1+r.Intn(3), 1+r.Intn(3)
+	kinds := [2]int{r.Intn(3), r.Intn(3)} // 0 frozen (untracked), 1 tracked fresh, 2 tracked and already holding a gradient (spent)
+	var held [2]tensor.Tensor
+	var vals [2]*ref.T
+	for i := range held {
+		vals[i] = RandT(r, []int{O}, -1, 1)
+		held[i] = rt.MustLeaf(vals[i], kinds[i] != 0)
+		if kinds[i] == 2 {
+			if err := tensor.BackPropagate(held[i].Scale(3)); err != nil {
+				k.Failf("harness: %v", err)
+				return
+			}
+		}
+	}
+	k.Case = map[string]any{"scenario": "NewFC over tensors the caller holds", "batch": B, "features": D, "outputs": O, "weight_kind": kinds[0], "bias_kind": kinds[1]}
+	k.Key("held-parameters/%d/%d/%d/%v", B, D, O, kinds)
+	k.Count("held_parameter_scenarios", 1)
+	type snap struct {
+		st   tensor.VerifState
+		ok   bool
+		grad tensor.Tensor
+	}
+	take := func() (o [2]snap) {
+		for i, t := range held {
+			o[i].st, o[i].ok = tensor.VerifGradState(t)
+			o[i].grad = t.Gradient()
+		}
+		return
+	}
+	before := take()
+	check := func(stage string) bool {
+		now := take()
+		for i := range held {
+			name := []string{"weight", "bias"}[i]
+			if now[i].grad != before[i].grad {
+				k.Failf("%s: the gradient of the held %s tensor changed (nil before: %v, nil now: %v) although nothing was back-propagated", stage, name, before[i].grad == nil, now[i].grad == nil)
+				return false
+			}
+			if now[i].ok && before[i].ok && (now[i].st.Tracked != before[i].st.Tracked || now[i].st.BPDirty != before[i].st.BPDirty) {
+				k.Failf("%s: tracking of the held %s tensor changed from tracked=%v spent=%v to tracked=%v spent=%v although the caller never called ResetGradContext", stage, name, before[i].st.Tracked, before[i].st.BPDirty, now[i].st.Tracked, now[i].st.BPDirty)
+				return false
+			}
+			if e := rt.Compare(held[i], vals[i], 0, 0, nil, 0); e != nil {
+				k.Failf("%s: the held %s tensor changed: %v", stage, name, e)
+				return false
+			}
+		}
+		return true
+	}
+	var fc *layers.FC
+	var err error
+	if p := call(func() {
+		fc, err = layers.NewFC(&layers.FCConfig{Inputs: D, Outputs: O, Initializers: map[string]layers.Initializer{"Weight": heldInit{held[0]}, "Bias": heldInit{held[1]}}})
+	}); p != nil || err != nil || fc == nil {
+		k.Failf("NewFC over held tensors: panic=%v err=%v", p, err)
+		return
+	}
+	if !check("after NewFC") {
+		return
+	}
+	var y tensor.Tensor
+	if p := call(func() { y, err = fc.Forward(rt.MustLeaf(RandT(r, []int{B, D}, -1, 1), r.Intn(2) == 0)) }); p != nil || err != nil || y == nil {
+		k.Failf("Forward of a layer over held tensors: panic=%v err=%v", p, err)
+		return
+	}
+	if !check("after Forward") {
+		return
+	}
+	// a frozen parameter stays frozen through a back-propagation of the layer's output
+	if kinds[0] != 2 && kinds[1] != 2 {
+		if p := call(func() { err = tensor.BackPropagate(y) }); p != nil || err != nil {
+			k.Failf("BackPropagate through a layer over held tensors: panic=%v err=%v", p, err)
+			return
+		}
+		for i, t := range held {
+			if kinds[i] == 0 && t.Gradient() != nil {
+				k.Failf("a frozen (untracked) %s tensor handed to NewFC received a gradient", []string{"weight", "bias"}[i])
+				return
+			}
+		}
+	}
 }
 
 // c10Components: FC / loss / optimizer scenario under scribbling, compared with a twin without.
